@@ -180,7 +180,7 @@ class StatUnit(corr.Unit):
             tp[n_] = t
         start = datetime.datetime(2023, rng.choice([1, 2, 6, 12]), rng.randint(1, 28), rng.choice([0, 1, 1, 6, 12, 23]),
                                   rng.choice([0, 0, 30]))
-        a = {"seed": rng.randrange(10**6), "days": rng.choice([1, 1, 2, 3, 5, 7, 7, 10, 14]),
+        a = {"seed": rng.choice([0, rng.randrange(10**6), rng.randrange(10**6)]), "days": rng.choice([1, 1, 2, 3, 5, 7, 7, 10, 14]),
              "interval": rng.choice([15, 15, 10, 60, 5]),
              "min_soc": rng.choice(["0.8", "0.8", "0.5", "0.2", "0", "1.0"]),
              "buffer": rng.choice(["0.1", "0.1", "0", "0.5"]),
@@ -414,7 +414,7 @@ class CsvUnit(corr.Unit):
         elif order < 0.7:
             rows.sort(key=lambda r: r["departure_time"])
         return {"rows": rows, "min_soc": rng.choice(["0.8", "0.5", "0.2", "0", "0.3"]), "days": rng.choice([1, 2, 7]),
-                "seed": rng.randrange(10**6), "wellformed": wellformed, "interval": rng.choice([15, 10, 60]), "nveh": nveh,
+                "seed": rng.choice([0, rng.randrange(10**6), rng.randrange(10**6)]), "wellformed": wellformed, "interval": rng.choice([15, 10, 60]), "nveh": nveh,
                 "with_id": with_id}
 
     def generate(self, rng, n, biased=False):
@@ -637,7 +637,7 @@ def gen_simbev(rng):
                     t += n
                     standing = not standing
                 files.append({"region": reg, "name": "%s_%05d_%dkWh" % (tname, k, cap), "rows": rows})
-    return {"files": files, "regions": regions, "seed": rng.choice([None, 1, 7, -1]) if False else rng.choice([1, 7, 123]),
+    return {"files": files, "regions": regions, "seed": rng.choice([0, 0, 1, 7, 123]),
             "ignore": rng.random() < 0.5, "use_region": rng.random() < 0.25, "min_soc": rng.choice([0.8, 0.5, 0.2]),
             "interval": 15}
 
